@@ -5,6 +5,7 @@ HARNESSES = {
     'queue': dict(sources=['src/h_queue.cpp']),
     'disp': dict(sources=['src/h_disp.cpp']),
     'cq': dict(sources=['src/h_cq.cpp']),
+    'cl': dict(sources=['src/h_cl.cpp']),
     'remover': dict(sources=['src/h_remover.cpp']),
     'heter': dict(sources=['src/h_heter.cpp']),
     'filter': dict(sources=['src/h_filter.cpp']),
@@ -230,6 +231,17 @@ prop('C12', 'exploration',
      COMMON_ASSUME + ['subjects are the 8 rows of the configuration table', 'routing uses the event computed before the filters run (rewriting the key argument does not re-route): filters only use the exclude-event form',
                       'HeterEventQueue with MixinHeterFilter does not compile for queued dispatch (stored arguments are const): heterogeneous filters are exercised on direct dispatch only'],
      q, t)
+
+q, t = std_stages('cl', 3000, 150000)
+prop('C03', 'exploration',
+     'generated thread programs (0-4 initial callbacks, 2-5 threads x <=4 calls: append, prepend, insert(before h), remove(h), ownsHandle(h), empty, forEach, invoke) on CallbackList (scheduler mutex and the library SpinLock) and on '
+     'EventDispatcher keyed by a user type whose comparison/hash/copy are scheduling points (std::map and std::unordered_map), executed under the harness-owned scheduler (random walk, PCT, sticky; schedule bytes are part of the case); '
+     'oracle = Wing-Gong linearizability search over the add/remove/query calls (program order + real-time order of non-overlapping calls, every return value, ending in the observed final order), traversal rules (no callback twice, '
+     'everything that stayed is visited, only callbacks that could be in the list, survivors in list order), deep probe after join (ownsHandle of every handle, remove survivors one by one re-enumerating), ledger; '
+     'non-trivial = two threads issued overlapping calls on one list, one of them a structural change, with a preemption inside a critical section or at an unlocked access',
+     SCHED_ASSUME + ['handles are shared through a harness table filled when an add returns; a handle of another event is never passed (documented UB)'],
+     q, t,
+     technique='property-based testing of generated thread programs x generated schedules under a controlled cooperative scheduler, linearizability (Wing-Gong) oracle')
 
 
 _ALL = ['C%02d' % i for i in range(1, 21)]
